@@ -276,6 +276,38 @@ async fn run_case(dir: PathBuf, ops: Vec<String>) -> Vec<String> {
                         };
                         if r.is_ok() { "ok".to_owned() } else { "err".to_owned() }
                     }
+                    "lover" => {
+                        // two bursts on the same keys, the second one <delay + extra> ms after the first: it lands while the
+                        // flushes of the first are on their way (nothing is awaited in between)
+                        strip = true;
+                        let b = buffers.get(t[1]).expect("buffer");
+                        let n: usize = t[2].parse().expect("n");
+                        let prefix = unhex(t[3]);
+                        let gap: u64 = t[4].parse().expect("ms");
+                        for round in 0..2i64 {
+                            for i in 0..n {
+                                let v = json!(round * 1000 + i as i64);
+                                let _ = if i % 5 == 0 { b.publish_later(format!("{prefix}/{i}"), v).await } else { b.set_later(format!("{prefix}/{i}"), v).await };
+                            }
+                            if round == 0 {
+                                tokio::time::sleep(Duration::from_millis(gap)).await;
+                            }
+                        }
+                        "ok".to_owned()
+                    }
+                    "lburst" => {
+                        // n values handed to the buffer back to back: keys <prefix>/i, values base + i, every 5th a publish
+                        let b = buffers.get(t[1]).expect("buffer");
+                        let n: usize = t[2].parse().expect("n");
+                        let prefix = unhex(t[3]);
+                        let base: i64 = t[4].parse().expect("base");
+                        let mut ok = true;
+                        for i in 0..n {
+                            let r = if i % 5 == 0 { b.publish_later(format!("{prefix}/{i}"), json!(base + i as i64)).await } else { b.set_later(format!("{prefix}/{i}"), json!(base + i as i64)).await };
+                            ok &= r.is_ok();
+                        }
+                        if ok { "ok".to_owned() } else { "err".to_owned() }
+                    }
                     "sleep" => {
                         strip = true;
                         tokio::time::sleep(Duration::from_millis(t[1].parse().expect("ms"))).await;
@@ -287,9 +319,9 @@ async fn run_case(dir: PathBuf, ops: Vec<String>) -> Vec<String> {
                 let mut last = log.lock().expect("log").len();
                 let start = tokio::time::Instant::now();
                 loop {
-                    tokio::time::sleep(Duration::from_millis(if t[0] == "later" { 1 } else { 12 })).await;
+                    tokio::time::sleep(Duration::from_millis(if t[0] == "later" || t[0] == "lburst" { 1 } else { 12 })).await;
                     let now = log.lock().expect("log").len();
-                    if now == last || start.elapsed() > Duration::from_millis(1500) || t[0] == "later" {
+                    if now == last || start.elapsed() > Duration::from_millis(1500) || t[0] == "later" || t[0] == "lburst" {
                         break;
                     }
                     last = now;
